@@ -159,6 +159,14 @@ def detectRenames (env : Env) (t : Node) (rootHist : Hist) (s : Session) (newPat
               else acc
             | _ => acc) acc) (s, [], [])
 
+/-- how folder-mode `create` ends: failed verification (11) over missing files (10) over a vanished nested
+history (30) -/
+def createExit (failed : Nat) (missing missingHist : List RelPath) : Option Err :=
+  if failed > 0 then some errVerifyFailed
+  else if !missing.isEmpty then some errMissingFiles
+  else if !missingHist.isEmpty then some errNoHistory
+  else none
+
 def createFolder (env : Env) (t : Node) (o : CreateOpts) : Outcome :=
   match loadHistory t with
   | .error e => { err := some e }
@@ -187,12 +195,7 @@ def createFolder (env : Env) (t : Node) (o : CreateOpts) : Outcome :=
     | .error e => { err := some e }
     | .ok written =>
       let missing := missingAfter hit notFound
-      let err :=
-        if st.failed > 0 then some errVerifyFailed
-        else if !missing.isEmpty then some errMissingFiles
-        else if !missingHist.isEmpty then some errNoHistory
-        else none
-      { err := err,
+      { err := createExit st.failed missing missingHist,
         report := { mismatch := st.mismatch, missing := missing.map posix, renamed := renamed },
         written := written }
 
@@ -249,6 +252,36 @@ structure VerifyOpts where
   singleFile : Option RelPath := none
   deriving Repr, Inhabited
 
+/-- what verify / diff conclude about one visible file -/
+inductive FileVerdict where
+  | new | mismatch | ok
+  deriving Repr, DecidableEq
+
+/-- the per-file decision of `verify_entire_folder` (`hashing = true`) and of `diff` (`hashing = false`): route the
+file to its history, look up the name it was recorded under, find the ORIGINAL entry; no original ⇒ new file;
+otherwise (verify only) hash the file in the original's format and compare -/
+def judgeFile (env : Env) (t : Node) (rootHist : Hist) (hashing : Bool) (p : RelPath) : FileVerdict :=
+  let (h, hrel) := route rootHist p
+  let name := recordedName h.gens (posix hrel)
+  match findOriginal h.gens name with
+  | none => .new
+  | some e => if hashing && env.H e.fmt (fileContent t p) != e.digest then .mismatch else .ok
+
+/-- how `verify` ends: mismatch (11) over new files (21) over a single file that was not found (20) over missing
+files (10) -/
+def verifyExit (mism news : List String) (singleAsked foundSingle : Bool) (missing : List RelPath) : Option Err :=
+  if !mism.isEmpty then some errVerifyFailed
+  else if !news.isEmpty then some errNewFiles
+  else if singleAsked && !foundSingle then some errSingleFileNotFound
+  else if !missing.isEmpty then some errMissingFiles
+  else none
+
+/-- how `diff` ends: missing files (10) over new files (21) -/
+def diffExit (news : List String) (missing : List RelPath) : Option Err :=
+  if !missing.isEmpty then some errMissingFiles
+  else if !news.isEmpty then some errNewFiles
+  else none
+
 /-- `verify_entire_folder` against the history (`hashing = true`) and `diff` (`hashing = false`) -/
 def verifyOrDiff (env : Env) (t : Node) (o : VerifyOpts) (hashing : Bool)
     (packingList : Option Generation := none) : Outcome :=
@@ -265,30 +298,14 @@ def verifyOrDiff (env : Env) (t : Node) (o : VerifyOpts) (hashing : Bool)
       let vis := visiblePaths hit t
       let found := vis.map (·.1)
       let files := (vis.filter fun x => !x.2).map (·.1)
-      let (news, mism, foundSingle) := files.foldl (fun (acc : List String × List String × Bool) p =>
-        let (news, mism, fs) := acc
-        let (h, hrel) := route rootHist p
-        let name := recordedName h.gens (posix hrel)
-        if o.singleFile.isSome && o.singleFile != some p then acc
-        else
-          match findOriginal h.gens name with
-          | none => (news ++ [posix p], mism, fs)
-          | some e =>
-            if hashing && env.H e.fmt (fileContent t p) != e.digest then (news, mism ++ [posix p], true)
-            else (news, mism, true)) ([], [], false)
+      let considered := files.filter fun p => o.singleFile.isNone || o.singleFile == some p
+      let news := (considered.filter fun p => judgeFile env t rootHist hashing p == .new).map posix
+      let mism := (considered.filter fun p => judgeFile env t rootHist hashing p == .mismatch).map posix
+      let foundSingle := considered.any fun p => judgeFile env t rootHist hashing p != .new
       let notFound := (expectedPaths rootHist).filter fun p => !found.contains p
       let missing := missingAfter hit notFound
-      let err :=
-        if hashing then
-          if !mism.isEmpty then some errVerifyFailed
-          else if !news.isEmpty then some errNewFiles
-          else if o.singleFile.isSome && !foundSingle then some errSingleFileNotFound
-          else if !missing.isEmpty then some errMissingFiles
-          else none
-        else
-          if !missing.isEmpty then some errMissingFiles
-          else if !news.isEmpty then some errNewFiles
-          else none
+      let err := if hashing then verifyExit mism news o.singleFile.isSome foundSingle missing
+                 else diffExit news missing
       { err := err, report := { mismatch := mism, missing := missing.map posix, new := news } }
 
 def verify (env : Env) (t : Node) (o : VerifyOpts) : Outcome := verifyOrDiff env t o true
@@ -324,73 +341,81 @@ structure DhState where
   lines : List String := []
   deriving Inhabited
 
+/-- the formats `verify -dh` computes: the one given with `-h`, else every format found in a root hash of any
+generation (c4 if there is none), sorted -/
+def dhFormats (rootHist : Hist) (format : Option String) : List String :=
+  let fmts0 : List String := match format with
+    | some f => [f]
+    | none =>
+      let fs := rootHist.gens.foldl (fun acc g =>
+        (g.gen.rootHash.getD []).foldl (fun a e => appendNew a e.fmt) acc) []
+      if fs.isEmpty then ["c4"] else fs
+  isort strLe fmts0
+
+/-- comparing the recorded entries of one folder with the computed hashes: an entry in a computed format whose
+content or structure hash differs marks its format as failed -/
+def dhCompare (fmts : List String) (count : Bool) (label : String) (computed : List (String × String × String))
+    (st : DhState) (recorded : List Entry) : DhState :=
+  recorded.foldl (fun (st : DhState) e =>
+    if !fmts.contains e.fmt then st
+    else match computed.find? (fun x => x.1 == e.fmt) with
+      | some (_, c', s') =>
+        if compareDir e c' s' == 1 then
+          { st with failedFormats := if count then appendNew st.failedFormats e.fmt else st.failedFormats,
+                    dirMismatch := if count || label == "." then appendNew st.dirMismatch label else st.dirMismatch }
+        else st
+      | none => st) st
+
+/-- one yielded folder of the traversal: fill the contexts, compare the sub-folders with what is recorded for them,
+compute the folder's own hashes -/
+def dhVisit (env : Env) (t : Node) (rootHist : Hist) (fmts : List String) (o : DhOpts) (st : DhState) (v : Visit) :
+    DhState :=
+  let ctx0 : List (String × DirCtx) := fmts.foldl (fun a f => ainsert f ({} : DirCtx) a) []
+  let (st, ctx) := v.children.foldl (fun (acc : DhState × List (String × DirCtx)) ch =>
+    let (st, ctx) := acc
+    let p := v.folder ++ [ch.1]
+    if ch.2 then
+      let (h, hrel) := route rootHist p
+      let recorded := dirEntriesFor h (posix hrel)
+      let sub := (alookup p st.dirHashes).getD []
+      let ctx := ctx.map fun (f, c) =>
+        match sub.find? (fun x => x.1 == f) with
+        | some (_, ch', sh) => (f, c.add env.H env.D f ch.1 ch' sh)
+        | none => (f, c)
+      let st := { st with dirHashes := st.dirHashes.filter fun x => x.1 != p }
+      -- with -ro the sub-folders are not compared at all
+      let st := if o.rootOnly then st else dhCompare fmts true (posix p) sub st recorded
+      (st, ctx)
+    else
+      let content := fileContent t p
+      let ctx := ctx.map fun (f, c) => let d := env.H f content; (f, c.add env.H env.D f ch.1 d d)
+      (st, ctx)) (st, ctx0)
+  let hashes : List (String × String × String) := ctx.map fun (f, c) =>
+    (f, hashOfList env.H env.D f c.content, hashOfList env.H env.D f c.structure_)
+  let st := { st with dirHashes := st.dirHashes ++ [(v.folder, hashes)] }
+  if o.calculateOnly && !(o.rootOnly && !v.folder.isEmpty) then
+    { st with lines := st.lines ++ hashes.map fun (f, c, s) => posix v.folder ++ " " ++ f ++ " " ++ c ++ " " ++ s }
+  else st
+
+/-- "if even one format verified, consider the entire process verified": 12 iff every computed format failed -/
+def dhExit (fmts failedFormats : List String) : Option Err :=
+  if !failedFormats.isEmpty && failedFormats.length == (fmts.foldl appendNew []).length
+  then some errDirVerifyFailed else none
+
+/-- `verify -dh`.  The root folder is the last one the traversal yields; it is compared against the root hashes of
+EVERY generation (always logged, counted unless -ro). -/
 def verifyDh (env : Env) (t : Node) (o : DhOpts) : Outcome :=
   match loadHistory t with
   | .error e => { err := some e }
   | .ok rootHist =>
     let patterns := setPatterns (latestIgnore rootHist.gens) o.ignoreCli o.ignoreFile
     let hit := env.hit patterns
-    let fmts0 : List String := match o.format with
-      | some f => [f]
-      | none =>
-        let fs := rootHist.gens.foldl (fun acc g =>
-          (g.gen.rootHash.getD []).foldl (fun a e => appendNew a e.fmt) acc) []
-        if fs.isEmpty then ["c4"] else fs
-    let fmts := isort strLe fmts0
-    let st := (traverse hit [] t).foldl (fun (st : DhState) v =>
-      let ctx0 : List (String × DirCtx) := fmts.foldl (fun a f => ainsert f ({} : DirCtx) a) []
-      let (st, ctx) := v.children.foldl (fun (acc : DhState × List (String × DirCtx)) ch =>
-        let (st, ctx) := acc
-        let p := v.folder ++ [ch.1]
-        if ch.2 then
-          let (h, hrel) := route rootHist p
-          let recorded := dirEntriesFor h (posix hrel)
-          let sub := (alookup p st.dirHashes).getD []
-          let ctx := ctx.map fun (f, c) =>
-            match sub.find? (fun x => x.1 == f) with
-            | some (_, ch', sh) => (f, c.add env.H env.D f ch.1 ch' sh)
-            | none => (f, c)
-          let st := { st with dirHashes := st.dirHashes.filter fun x => x.1 != p }
-          let st := recorded.foldl (fun (st : DhState) e =>
-            if !fmts.contains e.fmt then st
-            else match sub.find? (fun x => x.1 == e.fmt) with
-              | some (_, c', s') =>
-                if !o.rootOnly && compareDir e c' s' == 1 then
-                  { st with failedFormats := appendNew st.failedFormats e.fmt,
-                            dirMismatch := appendNew st.dirMismatch (posix p) }
-                else st
-              | none => st) st
-          (st, ctx)
-        else
-          let content := fileContent t p
-          let ctx := ctx.map fun (f, c) => let d := env.H f content; (f, c.add env.H env.D f ch.1 d d)
-          (st, ctx)) (st, ctx0)
-      let hashes : List (String × String × String) := ctx.map fun (f, c) =>
-        (f, hashOfList env.H env.D f c.content, hashOfList env.H env.D f c.structure_)
-      let st := { st with dirHashes := st.dirHashes ++ [(v.folder, hashes)] }
-      let st := if o.calculateOnly && !(o.rootOnly && !v.folder.isEmpty) then
-          { st with lines := st.lines ++ hashes.map fun (f, c, s) => posix v.folder ++ " " ++ f ++ " " ++ c ++ " " ++ s }
-        else st
-      -- the root folder is compared against the root hashes of every generation
-      if v.folder.isEmpty then
-        rootHist.gens.foldl (fun (st : DhState) g =>
-          (g.gen.rootHash.getD []).foldl (fun (st : DhState) e =>
-            if !fmts.contains e.fmt then st
-            else match hashes.find? (fun x => x.1 == e.fmt) with
-              | some (_, c', s') =>
-                if compareDir e c' s' == 1 then
-                  -- the root comparison is always made (and logged); with -ro it does not count
-                  { st with failedFormats := if o.rootOnly then st.failedFormats else appendNew st.failedFormats e.fmt,
-                            dirMismatch := appendNew st.dirMismatch "." }
-                else st
-              | none => st) st) st
-      else st) ({} : DhState)
-    -- "if even one format verified, consider the entire process verified"
-    let err := if !st.failedFormats.isEmpty && st.failedFormats.length == (dedupStr fmts).length
-      then some errDirVerifyFailed else none
-    { err := err, report := { dirMismatch := st.dirMismatch, lines := st.lines } }
-where
-  dedupStr (l : List String) : List String := l.foldl appendNew []
+    let fmts := dhFormats rootHist o.format
+    let st := (traverse hit [] t).foldl (dhVisit env t rootHist fmts o) ({} : DhState)
+    let rootHashes := (alookup ([] : RelPath) st.dirHashes).getD []
+    let st := rootHist.gens.foldl (fun (st : DhState) g =>
+      dhCompare fmts (!o.rootOnly) "." rootHashes st (g.gen.rootHash.getD [])) st
+    { err := dhExit fmts st.failedFormats, report := { dirMismatch := st.dirMismatch, lines := st.lines } }
 
 /-! ## flatten -/
 
